@@ -21,7 +21,12 @@
 (*    length of the first value, never more than the limit; alloc bounded  *)
 (*    by AllocBase + AllocPerByte * Len(in).                               *)
 (*  Encode: enc = TEnc(T, val); decoding enc gives NormV(T, val).  Encode   *)
-(*  events with src *-seq directly follow a failed encode (EncodeFail) on   *)
+(*  Every successful Encode also carries the encodings of the same value   *)
+(*  passed by value, inside an interface{} list, through Encode(io.Writer)  *)
+(*  and EncodeToReader (alt).  Events with src conc come from K goroutines  *)
+(*  coding different values of one type at the same time: the reference is  *)
+(*  the sequential function, concurrency must not change any result.        *)
+(*  Events with src *-seq directly follow a failed encode (EncodeFail) on   *)
 (*  the same goroutine.                                                     *)
 (***************************************************************************)
 EXTENDS Rlp, TLC, Json
@@ -106,6 +111,16 @@ JudgeEncode(e) ==
        ELSE Tag(e.ok, "Inv.Lossless.enc-fails:" \o e.t) \o
             (IF ~e.ok THEN <<>>
              ELSE Tag(e.enc = ref, "Inv.Canonical.enc:" \o e.t) \o
+                  \* the same value by value, inside an interface{} list, through Encode(w), EncodeToReader
+                  FlatT([i \in 1..Len(e.alt) |->
+                           LET a == e.alt[i]
+                               who == e.t \o ":" \o a.n IN
+                           Tag(~a.panic, "Inv.Total.panic:" \o who) \o
+                           (IF a.panic THEN <<>>
+                            ELSE Tag(a.ok, "Inv.Lossless.enc-fails:" \o who) \o
+                                 (IF a.ok THEN Tag(a.b = (IF a.n = "iniface" THEN EncList(ref) ELSE ref),
+                                                   "Inv.Canonical.enc:" \o who)
+                                  ELSE <<>>))]) \o
                   Tag(~e.back.panic, "Inv.Total.back-panic:" \o e.t) \o
                   Tag(e.back.panic \/ e.back.ok, "Inv.Lossless.back-rejects:" \o e.t) \o
                   (IF e.back.ok THEN Tag(NormV(T, e.back.val) = NormV(T, e.val), "Inv.Lossless.back-value:" \o e.t) ELSE <<>>)))
